@@ -1,7 +1,7 @@
 (* C07 — Every string that is not a valid RFC 9535 query is rejected.  Statements only.
    The whole-language statement is kept visible and is NOT proved (partial): *)
 From Coq Require Import List NArith ZArith Bool.
-From JP Require Import Base Ast Peg Dec2Bin Known Build Concrete BuildFacts RejectFacts.
+From JP Require Import Base Ast Peg Dec2Bin Known Build Concrete BuildFacts FragParse FragBuild RejectFacts RejectMore RejectRange.
 From JP.gen Require Import Grammar.
 Import ListNotations.
 
@@ -45,6 +45,94 @@ Theorem C07_bad_continuation_rejected : forall c rest,
   parse_query (36%N :: c :: rest) = PErr.
 Proof. exact bad_continuation_rejected. Qed.
 Print Assumptions C07_bad_continuation_rejected.
+
+(* ---- further classes, each closed under arbitrary continuation (RejectMore.v: the generated grammar is run on the
+   fixed prefix with the rest of the string left symbolic; every alternative of every rule on the way fails before
+   it can look at the rest) ---- *)
+
+(* integers: leading zeros, -0, an explicit plus sign, a fraction in an index *)
+Theorem C07_leading_zero_index_rejected : forall d rest,
+  is_digit d = true -> parse_query (36%N :: 91%N :: 48%N :: d :: rest) = PErr.            (* $[0d... *)
+Proof. exact leading_zero_index_rejected. Qed.
+Print Assumptions C07_leading_zero_index_rejected.
+Theorem C07_minus_zero_rejected : forall rest, parse_query (36%N :: 91%N :: 45%N :: 48%N :: rest) = PErr.   (* $[-0... *)
+Proof. exact minus_zero_rejected. Qed.
+Theorem C07_plus_sign_rejected : forall rest, parse_query (36%N :: 91%N :: 43%N :: rest) = PErr.            (* $[+... *)
+Proof. exact plus_sign_rejected. Qed.
+Theorem C07_index_fraction_rejected : forall rest, parse_query (36%N :: 91%N :: 49%N :: 46%N :: rest) = PErr.   (* $[1.... *)
+Proof. exact index_fraction_rejected. Qed.
+Theorem C07_leading_zero_literal_rejected : forall d rest,
+  is_digit d = true -> parse_query (36%N :: 91%N :: 63%N :: 64%N :: 61%N :: 61%N :: 48%N :: d :: rest) = PErr.   (* $[?@==0d... *)
+Proof. exact leading_zero_literal_rejected. Qed.
+Theorem C07_literal_leading_point_rejected : forall rest,
+  parse_query (36%N :: 91%N :: 63%N :: 64%N :: 61%N :: 61%N :: 46%N :: rest) = PErr.      (* $[?@==.... *)
+Proof. exact literal_leading_point_rejected. Qed.
+
+(* an index outside the I-JSON range, for EVERY such integer: the grammar accepts the digits, parser.rs rejects
+   (parse::<i64> fails beyond the i64 range, validate_range inside it) *)
+Theorem C07_index_out_of_range_rejected : forall z,
+  ~ (MIN_VAL <= z <= MAX_VAL)%Z -> parse_query (36%N :: 91%N :: int_text z ++ [93%N]) = PErr.
+Proof. exact index_out_of_range_rejected. Qed.
+Print Assumptions C07_index_out_of_range_rejected.
+
+(* blank space after the query (before it: C07_no_root_rejected), for every string and every blank character *)
+Theorem C07_trailing_blank_rejected : forall s b, is_blank b = true -> parse_query (s ++ [b]) = PErr.
+Proof. exact trailing_blank_rejected. Qed.
+Print Assumptions C07_trailing_blank_rejected.
+
+(* structure: empty brackets, an unquoted name in brackets, a shorthand name beginning with a digit, a quoted name
+   right after the dot, three dots, the root twice, a stray closing bracket, a slice with a fourth part *)
+Theorem C07_empty_brackets_rejected : forall rest, parse_query (36%N :: 91%N :: 93%N :: rest) = PErr.
+Proof. exact empty_brackets_rejected. Qed.
+Theorem C07_unquoted_name_rejected : forall c rest,
+  (97 <= c <= 122)%N \/ (65 <= c <= 90)%N -> parse_query (36%N :: 91%N :: c :: rest) = PErr.
+Proof. exact unquoted_name_rejected. Qed.
+Theorem C07_shorthand_digit_rejected : forall d rest, is_digit d = true -> parse_query (36%N :: 46%N :: d :: rest) = PErr.
+Proof. exact shorthand_digit_rejected. Qed.
+Theorem C07_dot_quote_rejected : forall c rest, c = 39%N \/ c = 34%N -> parse_query (36%N :: 46%N :: c :: rest) = PErr.
+Proof. exact dot_quote_rejected. Qed.
+Theorem C07_triple_dot_rejected : forall rest, parse_query (36%N :: 46%N :: 46%N :: 46%N :: rest) = PErr.
+Proof. exact triple_dot_rejected. Qed.
+Theorem C07_double_root_rejected : forall rest, parse_query (36%N :: 36%N :: rest) = PErr.
+Proof. exact double_root_rejected. Qed.
+Theorem C07_stray_close_rejected : forall c rest, c = 93%N \/ c = 41%N -> parse_query (36%N :: c :: rest) = PErr.
+Proof. exact stray_close_rejected. Qed.
+Theorem C07_slice_four_parts_rejected : forall rest, parse_query (36%N :: 91%N :: 58%N :: 58%N :: 58%N :: rest) = PErr.
+Proof. exact slice_four_parts_rejected. Qed.
+
+(* strings: a bad escape, an unescaped control character *)
+Theorem C07_bad_escape_rejected : forall rest, parse_query (36%N :: 91%N :: 39%N :: 92%N :: 120%N :: rest) = PErr.   (* $['\x... *)
+Proof. exact bad_escape_rejected. Qed.
+Theorem C07_control_char_rejected : forall c rest, (c < 32)%N -> parse_query (36%N :: 91%N :: 39%N :: c :: rest) = PErr.
+Proof. exact control_char_rejected. Qed.
+
+(* filters: empty, beginning with an operator, one half of a two-character operator (also: blank space inside ==),
+   a comparison without right-hand side, literals in upper case *)
+Theorem C07_empty_filter_rejected : forall rest, parse_query (36%N :: 91%N :: 63%N :: 93%N :: rest) = PErr.
+Proof. exact empty_filter_rejected. Qed.
+Theorem C07_filter_bad_start_rejected : forall c rest,
+  c = 61%N \/ c = 60%N \/ c = 62%N \/ c = 41%N \/ c = 44%N \/ c = 38%N \/ c = 124%N ->
+  parse_query (36%N :: 91%N :: 63%N :: c :: rest) = PErr.
+Proof. exact filter_bad_start_rejected. Qed.
+Theorem C07_single_equals_rejected : forall c rest,
+  c <> 61%N -> parse_query (36%N :: 91%N :: 63%N :: 64%N :: 61%N :: c :: rest) = PErr.     (* $[?@=c... *)
+Proof. exact single_equals_rejected. Qed.
+Theorem C07_bang_alone_rejected : forall c rest,
+  c <> 61%N -> parse_query (36%N :: 91%N :: 63%N :: 64%N :: 33%N :: c :: rest) = PErr.     (* $[?@!c... *)
+Proof. exact bang_alone_rejected. Qed.
+Theorem C07_single_amp_rejected : forall c rest,
+  c <> 38%N -> parse_query (36%N :: 91%N :: 63%N :: 64%N :: 38%N :: c :: rest) = PErr.
+Proof. exact single_amp_rejected. Qed.
+Theorem C07_single_bar_rejected : forall c rest,
+  c <> 124%N -> parse_query (36%N :: 91%N :: 63%N :: 64%N :: 124%N :: c :: rest) = PErr.
+Proof. exact single_bar_rejected. Qed.
+Theorem C07_missing_operand_rejected : forall rest,
+  parse_query (36%N :: 91%N :: 63%N :: 64%N :: 61%N :: 61%N :: 93%N :: rest) = PErr.        (* $[?@==]... *)
+Proof. exact missing_operand_rejected. Qed.
+Theorem C07_uppercase_literal_rejected : forall c rest,
+  (65 <= c <= 90)%N -> parse_query (36%N :: 91%N :: 63%N :: 64%N :: 61%N :: 61%N :: c :: rest) = PErr.   (* $[?@==True ... *)
+Proof. exact uppercase_literal_rejected. Qed.
+Print Assumptions C07_uppercase_literal_rejected.
 
 (* near-misses, evaluated inside Coq on the grammar of this run (a test, not the unbounded claim) *)
 Definition rejected (s : str) : bool := match parse_query s with PErr => true | _ => false end.
